@@ -85,8 +85,9 @@ class _Capture(logging.Handler):
 class Disp:
     """disposable double: logs enter/exit, yields states, fails or suspends as configured"""
 
-    def __init__(self, world, name, yields=(), enter="ok", exit="ok", shape="list", spawns=None):
+    def __init__(self, world, name, yields=(), enter="ok", exit="ok", shape="list", spawns=None, base=False):
         self.w, self.name, self.yields, self.enter, self.exit, self.shape = world, name, yields, enter, exit, shape
+        self.errcls = Base if base else Err   # what a failing __aenter__ / __aexit__ raises: an Exception or a BaseException
         self.spawns = spawns  # name of a task this disposable spawns through the context at the start of __aenter__
         self.n_enter = self.n_exit = 0
         self.exit_arg = None
@@ -102,9 +103,9 @@ class Disp:
             if self.enter == "suspend":
                 how = await self.w.gate("de:" + self.name)
                 if how == "fail":
-                    raise self.w.err_of("enter:" + self.name)
+                    raise self.w.err_of("enter:" + self.name, self.errcls)
             elif self.enter == "fail":
-                raise self.w.err_of("enter:" + self.name)
+                raise self.w.err_of("enter:" + self.name, self.errcls)
         except asyncio.CancelledError:
             self.enter_status = "cancelled"
             raise
@@ -127,9 +128,9 @@ class Disp:
             if self.exit == "suspend":
                 how = await self.w.gate("dx:" + self.name)
                 if how == "fail":
-                    raise self.w.err_of("exit:" + self.name)
+                    raise self.w.err_of("exit:" + self.name, self.errcls)
             elif self.exit == "fail":
-                raise self.w.err_of("exit:" + self.name)
+                raise self.w.err_of("exit:" + self.name, self.errcls)
         except asyncio.CancelledError:
             self.exit_status = "cancelled"
             raise
